@@ -433,6 +433,51 @@ def check_splinecv(case, ctx):
     ctx.nt(len(dampings) >= 2 and len(case["splits"]) >= 2)
 
 
+# ---------------------------------------------------------------- large data sets
+@st.composite
+def large_cases(draw):
+    return dict(n=draw(st.sampled_from([3000, 12000])), seed=draw(st.integers(0, 10**6)), est=draw(st.sampled_from(["trend", "knn", "vector"])), scoring=draw(st.sampled_from(SCORERS)),
+                weights=draw(st.booleans()), n_splits=draw(st.integers(2, 6)), delayed=draw(st.booleans()), blocked=draw(st.booleans()))
+
+
+def check_large(case, ctx):
+    """thousands of points: every fold's score against a fresh clone fitted on the training rows only; train_test_split rows stay aligned"""
+    rng = np.random.RandomState(case["seed"])  # a pure function of the generated case
+    n = case["n"]
+    e, nn = rng.uniform(0, 100, n), rng.uniform(-50, 0, n)
+    d1 = 3.0 + 0.02 * e - 0.05 * nn + np.sin(e / 9.0) + 0.1 * rng.standard_normal(n)
+    d2 = -1.0 + 0.001 * e * nn + 0.1 * rng.standard_normal(n)
+    spec = {"trend": dict(kind="trend", degree=2), "knn": dict(kind="knn", k=4), "vector": dict(kind="vector", components=[dict(kind="trend", degree=1), dict(kind="knn", k=2)])}[case["est"]]
+    data = [d1, d2] if case["est"] == "vector" else [d1]
+    weights = None if not case["weights"] or case["est"] == "knn" else [np.round(rng.uniform(0.5, 3.0, n) * 8) / 8 for _ in data]
+    cv = vd.BlockKFold(n_splits=case["n_splits"], spacing=10.0, shuffle=True, random_state=case["seed"] % 991) if case["blocked"] else KFold(n_splits=case["n_splits"], shuffle=True, random_state=case["seed"] % 991)
+    with warnings.catch_warnings():
+        warnings.simplefilter("ignore")
+        splits = [(np.array(a), np.array(b)) for a, b in cv.split(np.column_stack([e, nn]))]
+    est = build.make_estimator(spec)
+    got = quiet(vd.cross_val_score, est, (e, nn), pack(data), weights=None if weights is None else pack(weights), cv=cv, scoring=scoring_object(case["scoring"]), delayed=case["delayed"])
+    if case["delayed"]:
+        got = dask.compute(*got, scheduler="synchronous")
+    got = np.asarray(got, dtype="float64")
+    exp = own_scores(spec, case["scoring"], (e, nn), data, weights, splits)
+    ctx.check(got.shape == exp.shape, "%d scores for %d splits", got.size, exp.size)
+    bad = np.abs(got - exp) > 1e-9 * np.maximum(np.abs(exp), 1.0)
+    if bad.any():
+        k = int(np.argmax(bad))
+        raise Violation("%d points, split %d: cross_val_score(scoring=%r) = %.12g, a fresh clone fitted on the training rows only gives %.12g (estimator %s, weights %s)" % (
+            n, k, case["scoring"], got[k], exp[k], case["est"], "given" if weights is not None else "none"))
+    # train_test_split keeps rows together
+    rows = np.arange(n, dtype="float64")
+    train, test = vd.train_test_split((e, nn), (rows, rows + 0.5), random_state=case["seed"] % 991, test_size=0.3)
+    for part in (train, test):
+        pc, pd_, _ = part
+        ctx.check(np.array_equal(np.asarray(pd_[0]) + 0.5, np.asarray(pd_[1])) and np.array_equal(e[np.asarray(pd_[0]).astype(int)], np.asarray(pc[0])) and np.array_equal(nn[np.asarray(pd_[0]).astype(int)], np.asarray(pc[1])),
+                  "train_test_split of %d points separated coordinates from their data rows", n)
+    ctx.check(np.array_equal(np.sort(np.concatenate([np.asarray(train[1][0]), np.asarray(test[1][0])])), rows), "train and test rows of %d points are not complementary", n)
+    ctx.label(case["est"], "n%d" % n, "scoring_%s" % case["scoring"], "delayed" if case["delayed"] else "serial", "blocked" if case["blocked"] else "kfold")
+    ctx.nt(True)
+
+
 SUBCHECKS = [
     Sub("cross_val_score", check_cv, strategy=cv_cases(), quick=100, thorough=600, shards_quick=4,
         doc="cross_val_score vs independently fitted/scored clones per split; estimator untouched; delayed results under three harness-owned schedules equal the serial scores"),
@@ -442,4 +487,6 @@ SUBCHECKS = [
         doc="complementary row subsets with coordinates, every data and every weight component aligned (value-coded rows); whole blocks with spacing/shape"),
     Sub("splinecv", check_splinecv, strategy=splinecv_cases(), quick=60, thorough=400, shards_quick=4,
         doc="SplineCV scores_ = means of independent cross-validated scores, selection = arg-max, prediction = Spline with the selected parameters on all data"),
+    Sub("large", check_large, strategy=large_cases(), quick=6, thorough=40, heavy=True,
+        doc="3 000 - 12 000 points: per-fold scores (serial and delayed, blocked and plain folds) against fresh clones; train_test_split keeps rows aligned and complementary"),
 ]
